@@ -690,12 +690,18 @@ def c10_steps(S, rec):
 def cpm(S, rem, t):
     """independent critical-path computation for an FS network"""
     n = S.nt
+    # successors derived from the input lists: the reference follows the declared predecessors
+    # whether or not they are mirrored in an output list (finding C12/onesided)
+    succ = [[] for _ in range(n)]
+    for i in range(n):
+        for (p, k) in S.inputs[i]:
+            succ[p].append((i, k))
     order, indeg = [], [len(S.inputs[i]) for i in range(n)]
     todo = [i for i in range(n) if indeg[i] == 0]
     while todo:
         x = todo.pop()
         order.append(x)
-        for (s, _) in S.outputs[x]:
+        for (s, _) in succ[x]:
             indeg[s] -= 1
             if indeg[s] == 0:
                 todo.append(s)
@@ -704,11 +710,11 @@ def cpm(S, rem, t):
     for i in order:
         est[i] = max([Fraction(t)] + [eft[p] for (p, _) in S.inputs[i]])
         eft[i] = est[i] + rem[i]
-    tails = [i for i in range(n) if not S.outputs[i]]
+    tails = [i for i in range(n) if not succ[i]]
     cpl = max(eft[i] for i in tails)
     lft, lst = [None] * n, [None] * n
     for i in reversed(order):
-        lft[i] = min([lst[s] for (s, _) in S.outputs[i]]) if S.outputs[i] else cpl
+        lft[i] = min([lst[s] for (s, _) in succ[i]]) if succ[i] else cpl
         lst[i] = lft[i] - rem[i]
     return est, eft, lst, lft, cpl
 
